@@ -291,11 +291,101 @@ func sweepPred(sweep string, idx int) []interval {
 	return []interval(s.norm())
 }
 
+func setSize(s iset) int64 {
+	var n int64
+	for _, iv := range s {
+		n += iv.hi - iv.lo + 1
+	}
+	return n
+}
+
+// refTables reads the fourteen interval lists of coq/ref/Ucd13.v in the order of predOrder.
+func refTables(path string) []iset {
+	data, err := os.ReadFile(path)
+	if err != nil {
+		return nil
+	}
+	var out []iset
+	for _, ln := range strings.Split(string(data), "\n") {
+		if !strings.HasPrefix(ln, "Definition ucd13_") || strings.HasPrefix(ln, "Definition ucd13_tables") {
+			continue
+		}
+		var s iset
+		rest := ln[strings.Index(ln, ":=")+2:]
+		for _, part := range strings.Split(rest, "(")[1:] {
+			part = part[:strings.Index(part, ")")]
+			ab := strings.Split(part, ",")
+			if len(ab) != 2 {
+				continue
+			}
+			a, e1 := strconv.ParseInt(strings.TrimSpace(ab[0]), 10, 64)
+			b, e2 := strconv.ParseInt(strings.TrimSpace(ab[1]), 10, 64)
+			if e1 == nil && e2 == nil {
+				s = append(s, interval{a, b})
+			}
+		}
+		out = append(out, s.norm())
+	}
+	return out
+}
+
+// matchByContent looks for a renamed class predicate.
+func matchByContent(env *predEnv, ref string, idx int) (string, []interval) {
+	refs := refTables(ref)
+	if idx >= len(refs) {
+		return "", nil
+	}
+	want := refs[idx]
+	known := map[string]bool{}
+	for _, p := range predOrder {
+		known[p] = true
+	}
+	best, bestName := 0.0, ""
+	var bestSet []interval
+	ties := 0
+	for name, fd := range env.fns {
+		if known[name] || fd.Type.Params == nil || len(fd.Type.Params.List) != 1 || len(fd.Type.Params.List[0].Names) != 1 ||
+			fd.Type.Results == nil || len(fd.Type.Results.List) != 1 {
+			continue
+		}
+		if id, ok := fd.Type.Params.List[0].Type.(*ast.Ident); !ok || id.Name != "rune" {
+			continue
+		}
+		if id, ok := fd.Type.Results.List[0].Type.(*ast.Ident); !ok || id.Name != "bool" {
+			continue
+		}
+		ivs, ok := simplePred(fd)
+		if !ok {
+			var okg bool
+			ivs, _, okg = generalPred(env, name)
+			if !okg {
+				continue
+			}
+		}
+		got := iset(ivs).norm()
+		in := setSize(inter(got, want))
+		un := setSize(union(got, want))
+		if un == 0 {
+			continue
+		}
+		j := float64(in) / float64(un)
+		if j > best {
+			best, bestName, bestSet, ties = j, name, ivs, 0
+		} else if j == best {
+			ties++
+		}
+	}
+	if best >= 0.9 && ties == 0 {
+		return bestName, bestSet
+	}
+	return "", nil
+}
+
 // tables returns the interval table of every class predicate and the names of those that had
 // to be read off the compiled code (sweep) because their source is outside the translated
 // fragment. Without a sweep file such a predicate ends the run with status 3, which asks the
 // caller to run the sweep and call again.
-func tables(repo, sweep string) (map[string][]interval, []string) {
+func tables(repo, sweep, ref string) (map[string][]interval, []string) {
 	path := filepath.Join(repo, "internal", "gem", "graphemeclusters.go")
 	fset := token.NewFileSet()
 	env := &predEnv{fns: map[string]*ast.FuncDecl{}, memo: map[string]iset{}, stack: map[string]bool{}}
@@ -316,6 +406,15 @@ func tables(repo, sweep string) (map[string][]interval, []string) {
 	for i, p := range predOrder {
 		fd := env.fns[p]
 		why := "not found in graphemeclusters.go"
+		if fd == nil && ref != "" {
+			// renamed? recognise it by what it accepts: the function of type func(rune) bool, not one of
+			// the other predicates, whose set is (nearly) the reference set of this class
+			if name, ivs := matchByContent(env, ref, i); name != "" {
+				fmt.Fprintf(os.Stderr, "translator: %s not found by name; %s accepts its set and is taken for it\n", p, name)
+				res[p] = ivs
+				continue
+			}
+		}
 		if fd != nil {
 			if ivs, ok := simplePred(fd); ok {
 				res[p] = ivs
@@ -430,10 +529,11 @@ func writeIfChanged(path, content string) {
 func main() {
 	repo := flag.String("repo", "/repo", "repository root")
 	out := flag.String("out", "/verif/coq/gen", "output directory")
+	ref := flag.String("ref", "", "reference tables (coq/ref/Ucd13.v): used only to recognise a class predicate that was renamed, by the set of values it accepts")
 	sweep := flag.String("sweep", "", "output of `harness sweep`, used for predicates whose source is outside the translated fragment")
 	flag.Parse()
 
-	tabs, swept := tables(*repo, *sweep)
+	tabs, swept := tables(*repo, *sweep, *ref)
 	var b strings.Builder
 	b.WriteString("(* GENERATED by /verif/translator from internal/gem/graphemeclusters.go. Do not edit. *)\n")
 	if len(swept) > 0 {
